@@ -204,7 +204,9 @@ class Lexer:
 
     def t_RPAR(self, token):
         r'\)'
-        token.lexer.pop_state()
+        if token.lexer.lexstatestack:
+            # An unbalanced ')' is left for the parser to report.
+            token.lexer.pop_state()
         return token
 
     def t_ANY_BOOLEAN(self, token):
